@@ -711,6 +711,33 @@ func judge(an *analysis, c Case, out orb.MultiPolygon) (zeroArea, asked int, err
 			return zeroArea, asked, fmt.Errorf("area of the output polygons is %.12g, area of region ∩ box is %.12g (tolerance %.3g); output %v", gotA, wantA, an.tolA, out)
 		}
 	}
+
+	// (6) "the same region plain clipping gives": plain clip is only the named reference of that clause, so
+	// it is itself checked against the harness's own model – membership at the query points above, and here
+	// that it has nothing outside the box and the area of region ∩ box (a Sutherland–Hodgman result may carry
+	// zero-width bridges along the box, which have no area; its signed area is the integral of the winding
+	// number, i.e. the area of ring ∩ box for a simple ring).
+	if c.Kind != "open" {
+		plainA := 0.0
+		for _, p := range plain {
+			for j, r := range p {
+				for _, v := range r {
+					if d := outsideDist(b, v); d > an.tolV {
+						return zeroArea, asked, fmt.Errorf("plain clip (reference of the region clause) has vertex %v lying %g outside the box", v, d)
+					}
+				}
+				a := math.Abs(shoelace(closeList(r), b.Min))
+				if j == 0 {
+					plainA += a
+				} else {
+					plainA -= a
+				}
+			}
+		}
+		if math.Abs(plainA-wantA) > an.tolA {
+			return zeroArea, asked, fmt.Errorf("plain clip (reference of the region clause) has area %.12g, region ∩ box has %.12g (tolerance %.3g)", plainA, wantA, an.tolA)
+		}
+	}
 	return zeroArea, asked, nil
 }
 
